@@ -23,6 +23,8 @@ thread_local! {
     static DEAD: RefCell<std::collections::HashSet<u64>> = RefCell::new(std::collections::HashSet::new());
     // the bumpalo side of a history: every identity it ever dropped (never cleared within a history)
     static BUMP_SIDE: Cell<bool> = Cell::new(false);
+    // identities a user callback was invoked with during the current operation (C13: like std, in std's order)
+    static CALLS: RefCell<Vec<u64>> = RefCell::new(Vec::new());
     static BDEAD: RefCell<std::collections::HashSet<u64>> = RefCell::new(std::collections::HashSet::new());
 }
 
@@ -275,8 +277,8 @@ macro_rules! apply_op {
                 drop(d);
                 format!("front:{};back:{}", show_ids(&got), show_ids(&gb))
             }
-            Op::Retain(a) => { let mut sc = Script { ans: a.clone(), pos: 0 }; $v.retain(|_| !sc.next()); "unit".into() }
-            Op::DedupBy(a) => { let mut sc = Script { ans: a.clone(), pos: 0 }; $v.dedup_by(|_, _| sc.next()); "unit".into() }
+            Op::Retain(a) => { let mut sc = Script { ans: a.clone(), pos: 0 }; $v.retain(|x| { CALLS.with(|c| c.borrow_mut().push(x.id)); !sc.next() }); "unit".into() }
+            Op::DedupBy(a) => { let mut sc = Script { ans: a.clone(), pos: 0 }; $v.dedup_by(|x, y| { CALLS.with(|c| { let mut c = c.borrow_mut(); c.push(x.id); c.push(y.id); }); sc.next() }); "unit".into() }
             Op::Dedup => { $v.dedup(); "unit".into() }
             Op::Resize(n, x, k) => { BOOM_CLONE.with(|b| b.set(*k)); CLONES.with(|c| c.set(0)); $v.resize(*n, Tok::new(*x)); "unit".into() }
             Op::ExtendFromSlice(xs, k) => {
@@ -583,7 +585,9 @@ fn run_program(seed: u64, hid: u64, maxops: usize) {
         NEXT_ID.with(|n| n.set(id1));
         DEAD.with(|d| d.borrow_mut().clear());
         let dd_before = DOUBLE_DROP.with(|d| d.replace(false));
+        CALLS.with(|c| c.borrow_mut().clear());
         let so = run_std(&mut w, &op);
+        let std_calls: Vec<u64> = CALLS.with(|c| std::mem::take(&mut *c.borrow_mut()));
         let std_dead: Vec<u64> = DEAD.with(|d| d.borrow().iter().copied().collect());
         let next_after_std = NEXT_ID.with(|n| n.get());
         DOUBLE_DROP.with(|d| d.set(false));
@@ -592,6 +596,7 @@ fn run_program(seed: u64, hid: u64, maxops: usize) {
         BUMP_SIDE.with(|b| b.set(true));
         let bo = run_bump(&mut w, &op);
         BUMP_SIDE.with(|b| b.set(false));
+        let bump_calls: Vec<u64> = CALLS.with(|c| std::mem::take(&mut *c.borrow_mut()));
         let double = DOUBLE_DROP.with(|d| d.replace(dd_before));
         // nothing the bumpalo vector still holds may have been dropped already
         let reachable_dead: Vec<u64> = BDEAD.with(|d| bo.contents.iter().copied().filter(|i| d.borrow().contains(i)).collect());
@@ -605,6 +610,9 @@ fn run_program(seed: u64, hid: u64, maxops: usize) {
         }
         if !reachable_dead.is_empty() {
             line!("X dropped_value_reachable ids={}", show_ids(&reachable_dead));
+        }
+        if bump_calls != std_calls {
+            line!("X callback_arguments_differ bump={} std={}", show_ids(&bump_calls), show_ids(&std_calls));
         }
         if !check_neighbours(&mut w, &mut nb_expected, &mut s_expected) {
             line!("X neighbour_disturbed");
@@ -890,6 +898,50 @@ fn grid() {
                 }
             }
         }
+    }
+    // C18: reallocations of a growing Vec are logarithmic in its length, for every element size;
+    // a Vec/String with reserved capacity accepts that many elements without moving
+    fn growth<const N: usize>(pushes: usize) {
+        let bump = Bump::new();
+        let mut v: BVec<[u8; N]> = BVec::new_in(&bump);
+        let mut moves = 0usize;
+        let mut cap = v.capacity();
+        for i in 0..pushes {
+            v.push([i as u8; N]);
+            // something else is allocated in between, so growth cannot always be in place
+            if i % 3 == 0 { bump.alloc(i as u8); }
+            if v.capacity() != cap { moves += 1; cap = v.capacity(); }
+        }
+        let bound = (usize::BITS - pushes.leading_zeros()) as usize + 2;
+        println!("R vec_push_growth es={} pushes={} reallocs={} bound={}", N, pushes, moves, bound);
+        let n = 1 + pushes / 3;
+        let mut w: BVec<[u8; N]> = BVec::with_capacity_in(n, &bump);
+        let p0 = w.as_ptr() as usize;
+        for i in 0..n { w.push([i as u8; N]); }
+        println!("R vec_reserved_no_move es={} n={} moved={} bound=0", N, n, (w.as_ptr() as usize != p0) as usize);
+        let mut x: BVec<[u8; N]> = BVec::new_in(&bump);
+        x.push([1; N]);
+        x.reserve_exact(n);
+        let p1 = x.as_ptr() as usize;
+        for i in 0..n { x.push([i as u8; N]); }
+        println!("R vec_reserve_exact_no_move es={} n={} moved={} bound=0", N, n, (x.as_ptr() as usize != p1) as usize);
+    }
+    growth::<1>(3000); growth::<3>(1000); growth::<8>(1000); growth::<24>(600); growth::<100>(300);
+    growth::<1024>(120); growth::<1025>(120); growth::<2048>(100); growth::<4096>(80);
+    {
+        let bump = Bump::new();
+        let mut st = bumpalo::collections::String::new_in(&bump);
+        let (mut moves, mut cap) = (0usize, st.capacity());
+        for i in 0..5000usize {
+            st.push(if i % 7 == 0 { 'é' } else { 'a' });
+            if i % 5 == 0 { bump.alloc(i as u8); }
+            if st.capacity() != cap { moves += 1; cap = st.capacity(); }
+        }
+        println!("R string_push_growth es=1 pushes=5000 reallocs={} bound=16", moves);
+        let mut s2 = bumpalo::collections::String::with_capacity_in(777, &bump);
+        let p0 = s2.as_ptr() as usize;
+        for _ in 0..777 { s2.push('x'); }
+        println!("R string_reserved_no_move es=1 n=777 moved={} bound=0", (s2.as_ptr() as usize != p0) as usize);
     }
     one::<()>();
     one::<u8>();
